@@ -32,6 +32,11 @@ type scope struct {
 	instances   map[instanceKey]any
 	instancesMu sync.RWMutex
 
+	// Serialises construction of scoped services per registration, so that
+	// concurrent resolutions in one scope run the constructor once
+	constructing   map[uint64]*sync.Mutex
+	constructingMu sync.Mutex
+
 	// Track disposable scoped instances
 	disposables   []Disposable
 	disposablesMu sync.Mutex
@@ -280,6 +285,25 @@ func (s *scope) Close() error {
 	return nil
 }
 
+// constructionLock returns the mutex that serialises construction of the
+// registration the descriptor belongs to within this scope.
+func (s *scope) constructionLock(descriptor *Descriptor) *sync.Mutex {
+	s.constructingMu.Lock()
+	defer s.constructingMu.Unlock()
+
+	if s.constructing == nil {
+		s.constructing = make(map[uint64]*sync.Mutex, 4)
+	}
+
+	mu, ok := s.constructing[descriptor.registration]
+	if !ok {
+		mu = &sync.Mutex{}
+		s.constructing[descriptor.registration] = mu
+	}
+
+	return mu
+}
+
 // getInstance retrieves a cached instance from this scope in a thread-safe manner.
 // Returns the instance and true if found, or nil and false if not cached.
 func (s *scope) getInstance(key instanceKey) (any, bool) {
@@ -360,6 +384,17 @@ func (s *scope) resolve(key instanceKey, descriptor *Descriptor) (any, error) {
 
 	case Scoped:
 		// Check for circular dependency only when creating new instance
+		if instance, ok := s.getInstance(key); ok {
+			return instance, nil
+		}
+
+		// Only one goroutine constructs a given scoped registration in this
+		// scope; the others wait and then find the instance in the cache.
+		// Lock order follows the (acyclic) dependency relation.
+		mu := s.constructionLock(descriptor)
+		mu.Lock()
+		defer mu.Unlock()
+
 		if instance, ok := s.getInstance(key); ok {
 			return instance, nil
 		}
